@@ -17,6 +17,11 @@ Violation keys (mechanisms):
   valid:<body|trailers|not-ended|rest>-mismatch:<path>    decoded value differs
   valid:size-misread                    a pure-hex size token decoded to another size
   packchunk:<what>                      packChunk output does not decode to its input
+  stale-trailers-after-reuse            a REUSED Respondent/Requestant (keep-alive: makeParser(), with or without reinit())
+                                        reports the trailers of an earlier message for a later message that has none
+REUSE class   sequences of 2-4 messages on ONE parser object, as Client/Server reuse it: a chunked message with trailers
+              followed by chunked-without-trailers, non-chunked, and chunked-with-other-trailers messages; delivered
+              pipelined in one read and one message per read; body and `.trails` are judged PER MESSAGE.
 """
 import itertools
 import random
@@ -33,7 +38,8 @@ RULE = ("VALID: hostile bodies (CR, LF, last-chunk look-alikes, binary) x divisi
         "for the listed short bodies, random divisions into 1-6 and occasionally up to 40 chunks otherwise) x extension sets "
         "(tokens, quoted strings with ';' '=') x trailer sets x size spellings; INVALID: every string of length <= 3 (quick) / "
         "<= 4 (thorough) over the alphabet 0-9 a f A F + - _ x X g . space, the statement's examples and random longer strings, "
-        "as the chunk-size token. Non-trivial = a valid case with >= 2 chunks or extensions or trailers, or an invalid batch "
+        "as the chunk-size token; REUSE: keep-alive sequences of 2-4 messages on one reused Respondent/Requestant (chunked with "
+        "trailers, then chunked without / non-chunked / chunked with other trailers), trailers judged per message. Non-trivial = a valid case with >= 2 chunks or extensions or trailers, or an invalid batch "
         "holding >= 1 invalid token; distinct = by (body length, chunk sizes, extension/trailer shape) or batch content.")
 ASSUMPTIONS = [
     "valid encodings use CRLF framing, 1*HEXDIG sizes without surrounding blanks, token or quoted-string extension values, "
@@ -50,6 +56,8 @@ _REQ = {"valid_encodings": 2500, "valid_decodes:parseChunk": 2500, "valid_decode
         "valid_decodes:Requestant": 1200, "valid_with_extensions": 500, "valid_with_trailers": 500,
         "packchunk_roundtrips": 300, "invalid_tokens_judged": 8000, "invalid_rejected": 1000,
         "reference_decoder_crosschecks": 2500}
+_REQ.update({"reuse_sequences": 150, "reuse_messages_judged": 400, "reuse_chunked_without_trailers_after_trailers": 100,
+             "reuse_nonchunked_after_trailers": 100, "reuse_with_reinit": 40})
 # the enumeration must be complete for the EXHAUSTIVE claim: 22 + 22^2 + 22^3 (+ 22^4) strings
 REQUIRE = {"quick": dict(_REQ, size_tokens_enumerated=11154), "thorough": dict(_REQ, size_tokens_enumerated=245410)}
 EXHAUSTIVE = {"quick": "all 11154 chunk-size strings of length 1-3 over the 22-character alphabet; all divisions into <= 6 chunks of 12 hostile bodies of length <= 7",
@@ -160,6 +168,27 @@ def cases(tier, seed, shard, nshards):
         yield {"kind": "valid", "body": G.b2s(body), "chunks": chunks, "last": last, "trailers": trailers,
                "cuts": G.random_cuts(rng, len(enc), rng.choice([1, 2, 5, 17, len(enc)])),
                "tail": rng.choice(["", "GET /next HTTP/1.1\r\n", "0\r\n\r\n", "5\r\n"])}
+    # ---- reuse of one parser object over a keep-alive sequence
+    nreuse = (320 if tier == "quick" else 3200) // nshards
+    for j in range(nreuse):
+        kind = rng.choice(["response", "request"])
+        gen = G.gen_response if kind == "response" else G.gen_request
+        shape = [["T", "c"], ["T", "n"], ["T", "c", "n", "T"], ["T", "n", "c"], ["T", "c", "T", "c"]][j % 5]
+        msgs = []
+        for what in shape:
+            o = dict(version="1.1", persist=True, maxbody=rng.choice([0, 12, 60]), eol=rng.choice(["crlf", "crlf", "lf"]))
+            if what == "T":
+                d = gen(rng, framing="chunked", trailers=True, **o)
+                if not d["trailers"]:
+                    d["trailers"] = [["X-T" + str(len(msgs)), "v%d" % rng.randrange(1000)]]
+                    d["raw"] = G.b2s(G.encode(d))
+            elif what == "c":
+                d = gen(rng, framing="chunked", trailers=False, **o)
+            else:
+                d = gen(rng, framing="length", **o)
+            msgs.append(d)
+        yield {"kind": "reuse", "role": kind, "msgs": msgs, "delivery": ["pipelined", "per-message"][j % 2],
+               "reinit": j % 4 == 3}
     # ---- packChunk
     npack = (640 if tier == "quick" else 6400) // nshards
     for _ in range(npack):
@@ -318,10 +347,72 @@ def run_sizes(case, ctx):
         ctx.sample({"tokens": case["tokens"][:12], "judged_invalid": judged})
 
 
+def run_reuse(case, ctx):
+    """one parser object over a keep-alive sequence, driven as Client.serviceResponse / Server.serviceReps drive it"""
+    role, msgs = case["role"], case["msgs"]
+    raws = [G.s2b(d["raw"]) for d in msgs]
+    p = H.new_parsent(role, "GET")
+    pieces = [b"".join(raws)] if case["delivery"] == "pipelined" else raws
+    snaps = []
+    ctx.count("reuse_sequences")
+    if case["reinit"]:
+        ctx.count("reuse_with_reinit")
+    try:
+        for piece in pieces:
+            p.msg.extend(piece)
+            for _ in range(len(msgs) + 2):
+                if p.parser is None:
+                    if not p.msg:
+                        break
+                    if case["reinit"]:       # what Client.request does before the next exchange
+                        p.reinit(method="GET") if role == "response" else p.reinit()
+                    p.makeParser()
+                p.parse()
+                if p.parser is not None:
+                    break
+                snaps.append(H.snapshot(p, role))
+    except Exception as ex:
+        ctx.violation(f"valid:escape:{type(ex).__name__}:{H.hio_function(ex)}",
+                      f"reuse sequence ({role}, {case['delivery']}): parse raised {ex!r} at message {len(snaps)}")
+        return
+    earlier = []
+    who = "Respondent" if role == "response" else "Requestant"
+    for i, d in enumerate(msgs):
+        if i >= len(snaps):
+            ctx.violation(f"valid:not-ended-mismatch:{who}-reuse",
+                          f"message {i} of {len(msgs)} on a reused parser never ended; bytes={raws[i][:200]!r}")
+            return
+        s = snaps[i]
+        ctx.count("reuse_messages_judged")
+        want = [list(t) for t in d.get("trailers", [])] if d["framing"] == "chunked" else []
+        got = s["trails"] or []
+        if earlier and not want:
+            ctx.count("reuse_chunked_without_trailers_after_trailers" if d["framing"] == "chunked" else "reuse_nonchunked_after_trailers")
+        if s["errored"] or s["body"] != d["body"]:
+            ctx.violation(f"valid:body-mismatch:{who}-reuse", f"message {i} on a reused {who}: body {s['body'][:60]!r} errored={s['errored']} "
+                                                              f"error={s['error']!r}, encoded {d['body'][:60]!r}")
+        elif got != want:
+            if not want and got in earlier:
+                ctx.violation("stale-trailers-after-reuse",
+                              f"message {i} ({d['framing']}, no trailers) on a reused {who} ({case['delivery']}, reinit={case['reinit']}) "
+                              f"reports .trails={got} - the trailers of message {earlier.index(got)} of the same connection; "
+                              f"bytes of this message={raws[i][:160]!r}")
+            else:
+                ctx.violation(f"valid:trailers-mismatch:{who}-reuse", f"message {i} ({d['framing']}) on a reused {who}: .trails={got}, encoded {want}; "
+                                                                      f"earlier trailers on this parser: {earlier}")
+        if want:
+            earlier.append(want)
+    sig = ["reuse", role, case["delivery"], case["reinit"], [[d["framing"], bool(d.get("trailers"))] for d in msgs]]
+    ctx.seen("valid_shapes", sig)
+    ctx.nontrivial(sig)
+
+
 def run_case(case, ctx):
     kind = case["kind"]
     if kind == "sizes":
         return run_sizes(case, ctx)
+    if kind == "reuse":
+        return run_reuse(case, ctx)
     if kind == "pack":
         msgs = [G.s2b(m) for m in case["msgs"]]
         try:
